@@ -31,7 +31,8 @@ ALLT = ["buf", "not", "and", "nand", "or", "nor", "xor", "xnor", "0", "1", "x", 
 
 
 def rand_ill(rng):
-    names = rng.sample(["a", "b", "c", "i.d", "i.q", "j.d", "j.q", "k.z"], rng.randint(3, 5))
+    # i0 / ij are NOT instances (their names merely start with a registered instance's name)
+    names = rng.sample(["a", "b", "c", "i.d", "i.q", "j.d", "j.q", "k.z", "i0.d", "ij.q"], rng.randint(3, 5))
     n = len(names)
     ty = [rng.choice(ALLT) if rng.random() < 0.5 else
           ("bb_input" if nm.endswith(".d") else "bb_output" if nm.endswith(".q") else rng.choice(["input", "and", "buf", "or", "not"]))
@@ -131,6 +132,18 @@ def producers(ctx, r):
     out.append(("io.verilog_to_circuit(blackboxes)", lambda: cg.io.verilog_to_circuit(cg.io.circuit_to_verilog(seqc), seqc.name, blackboxes=bbs)))
     out.append(("io.verilog_to_circuit(fast)", lambda: cg.io.verilog_to_circuit(cg.io.circuit_to_verilog(c), c.name, fast=True)))
     out.append(("io.bench_to_circuit", lambda: cg.io.bench_to_circuit(cg.io.circuit_to_bench(c), c.name)))
+
+    def fast_layout():
+        # the fast parser on text inside its documented subset with declarations / lists wrapped over lines and tabs
+        from .. import vlog
+
+        for _ in range(20):
+            p = vlog.fast_program(r, bb=0.0)
+            if not {"tie0", "tie1"} & ((set(p["outputs"]) | set(p["wires"])) - set(p["inputs"])):
+                break
+        return cg.io.verilog_to_circuit(vlog.fast_subset_text(p, r), p["name"], fast=True)
+
+    out.append(("io.verilog_to_circuit(fast, free layout)", fast_layout))
     return out
 
 
